@@ -124,6 +124,7 @@ def r11_function_steps(ctx, steps, rule='R11'):
                    'the yielded row')
     n = 0
     for fi in steps:
+        fi = ctx.N(fi)      # helpers of the step (a selector compiler, a name normaliser) are part of it
         stores = schema_stores(fi)
         if not stores:
             # the schema edit may live in a helper (add_computed_field.get_new_fields): follow calls one level
@@ -165,7 +166,13 @@ def r11_function_steps(ctx, steps, rule='R11'):
                 C -= trivial
                 forward = (S & cfg_roots)
                 backward = (C & stored_roots)
-                same_block = _same_block_feed(fi, facts, S, C, trivial)
+                # names that hold a part of a configuration object (`sel = configuration.setdefault(k, set())`) feed it too
+                from sa.deps import base_name as _bn
+                C_parts = set(C)
+                for nm_, vals_ in facts.assigns.items():
+                    if any(not isinstance(v_, ast.Name) and _bn(v_) in C for v_ in vals_):
+                        C_parts.add(nm_)
+                same_block = _same_block_feed(fi, facts, S, C_parts, trivial)
                 live = any(_reads_live_schema(facts, a, rl.var) for a in cfg)
                 run.check(bool(forward) or bool(backward) or bool(same_block) or live, rule, where(ctx.repo, call),
                           fi.qualname, call,
